@@ -1,41 +1,37 @@
 """C12 - cell-face connectivity is a consistent index structure."""
 import json
 
-from mirsym import engine, kanirun
-from . import buildrules as BR
+from mirsym import engine
+from . import buildrules as BR, connrules as CN
 
-LEVEL = 'model_checking'
-EXPLANATION = ('Kani/CBMC on the compiled crate: the real Voronoi::finalize, VoronoiCell::face_indices and neighbour_ids run on an ARBITRARY face list '
-               '(3 cells, 2 faces; symbolic left/right/shift and activity mask, constrained only by the producer invariants that C03/C07 establish): '
-               'offsets are the prefix sums of the face counts, the total equals the array length, each cell lists exactly the faces whose left it is or '
-               'whose unshifted right it is, each once; neighbour_ids yields exactly the other side of the listed non-boundary non-periodic faces, '
-               'without duplicates and never the cell itself - also for cells that were not constructed (made by the real '
-               'VoronoiCell::unconstructed). Engine M ties both creation sites of unconstructed cells (direct and integrator route) to that '
-               'constructor with the cell\'s own index.')
-
-KANI = [
-    {'name': 'finalize_connectivity', 'role': 'proof', 'timeout': 1500,
-     'bounds': '3 cells, 2 faces, symbolic left < 3, right in {None} u {Some(r < 3)}, shift in {None, Some}, symbolic mask; unwind 8'},
-    {'name': 'neighbour_ids_spec', 'role': 'proof', 'timeout': 1500, 'bounds': 'same'},
-]
-
+LEVEL = 'other'
+EXPLANATION = ('Engine M executes the real Voronoi::finalize, VoronoiCell::face_indices and neighbour_ids from the MIR on an ARBITRARY face list '
+               '(3 cells x 2 faces quick, 3 x 3 / 4 x 2 thorough): left/right labels symbolic, presence of right/shift enumerated, symbolic indices into the '
+               'per-cell lists forked and pruned by z3; constrained only by the producer invariants that C03/C07 establish. On every feasible path z3 decides: '
+               'offsets are the prefix sums of the face counts, the total equals the array length, each cell lists exactly the faces whose left it is or whose '
+               'unshifted right it is, once each; neighbour_ids yields exactly the other side of its non-boundary non-periodic faces, never the cell itself, no '
+               'duplicates - also for cells that were not constructed, whose index is tied to their position at both creation sites (direct and '
+               'integrator route) by the MIR of the build closures. A Kani version of the same harness exhausts the SAT back end\'s memory (measured, 3 cells / 2 faces) and is not used.')
 
 def check(run):
     funcs, info = engine.load_mir('ibig')
     run.mir_info.append(info)
     BR.check_direct_build_closure(run, funcs, 'C12')
     BR.check_integrator_closures(run, funcs, 'C12')
-    kanirun.run(run, 'C12', KANI, jobs=2)
+    if run.tier == 'quick':
+        CN.check(run, funcs, 'C12', 3, 2)
+    else:
+        CN.check(run, funcs, 'C12', 3, 3)
+        CN.check(run, funcs, 'C12', 4, 2)
     run.assume('producer invariants assumed by the harness: left is a constructed cell; an unshifted face has right != left; at most one unshifted face per '
                'unordered pair; a shifted face has a right generator (established by the C03/C07 obligations)')
-    states = sum(1 for k in run.kani if k.get('verdict') == 'SUCCESSFUL')
-    extra = {'states': max(1, 2 ** 3 * (3 * 4 * 2) ** 2), 'transitions': max(1, len(run.kani)), 'traces_validated_against_impl': 0,
-             'samples': [k['harness'] for k in run.kani] or ['finalize_connectivity']}
-    return run.finish(LEVEL, EXPLANATION, extra_cov=extra, trusted=['Kani 0.68 / CBMC 6.11', 'rustc -Zunpretty=mir', 'z3 5.1.0'])
+    return run.finish(LEVEL, EXPLANATION, trusted=['rustc -Zunpretty=mir', 'z3 5.1.0', 'std Vec/iterator models of mirsym'])
 
 
 def replay(path):
     d = json.load(open(path))
-    if d['kind'] == 'kani_playback':
-        return kanirun.replay('C12', path)
+    if d['kind'] == 'connectivity':
+        bad = CN.check_native(d.get('profile', 'debug'))
+        print(bad)
+        return 1 if bad else 0
     return BR.replay(d)
